@@ -667,31 +667,66 @@ func (c *Collection) FindOneAndDelete(ctx context.Context, filter interface{}, o
 		}
 	}
 
-	// delete documents
+	// delete documents and apply the projection within the transaction so
+	// that a failing projection does not leave the document deleted
 	res, err := useTransaction(ctx, c.engine, true, func(txn *Transaction) (interface{}, error) {
-		return txn.Delete(c.handle, query, sort, 0, 1)
+		// delete document
+		res, err := txn.Delete(c.handle, query, sort, 0, 1)
+		if err != nil {
+			return nil, err
+		}
+
+		// get list
+		list := res.Matched
+
+		// apply projection
+		if projection != nil {
+			list, err = mongokit.ProjectList(list, projection)
+			if err != nil {
+				return nil, err
+			}
+		}
+
+		return list, nil
 	})
 	if err != nil {
 		return &SingleResult{err: err}
 	}
 
 	// get list
-	list := res.(*Result).Matched
+	list := res.(bsonkit.List)
 
 	// check list
 	if len(list) == 0 {
 		return &SingleResult{}
 	}
 
-	// apply projection
-	if projection != nil {
-		list, err = mongokit.ProjectList(list, projection)
-		if err != nil {
-			return &SingleResult{err: err}
+	return &SingleResult{doc: list[0]}
+}
+
+// projectModified selects the document to return from a find and modify
+// operation and applies the projection. It is called within the transaction of
+// the operation so that a failing projection aborts the write.
+func projectModified(result *Result, returnAfter bool, projection bsonkit.Doc) (bsonkit.Doc, error) {
+	// get doc
+	var doc bsonkit.Doc
+	if result.Upserted != nil {
+		if returnAfter {
+			doc = result.Upserted
+		}
+	} else if len(result.Matched) > 0 {
+		doc = result.Matched[0]
+		if returnAfter && len(result.Modified) > 0 {
+			doc = result.Modified[0]
 		}
 	}
 
-	return &SingleResult{doc: list[0]}
+	// apply projection
+	if doc != nil && projection != nil {
+		return mongokit.Project(doc, projection)
+	}
+
+	return doc, nil
 }
 
 // FindOneAndReplace implements the ICollection.FindOneAndReplace method.
@@ -767,39 +802,22 @@ func (c *Collection) FindOneAndReplace(ctx context.Context, filter, replacement 
 		returnAfter = *opt.ReturnDocument == options.After
 	}
 
-	// insert document
+	// replace document and apply the projection within the transaction so
+	// that a failing projection does not leave the document replaced
 	res, err := useTransaction(ctx, c.engine, true, func(txn *Transaction) (interface{}, error) {
-		return txn.Replace(c.handle, query, sort, repl, upsert)
+		// replace document
+		result, err := txn.Replace(c.handle, query, sort, repl, upsert)
+		if err != nil {
+			return nil, err
+		}
+
+		return projectModified(result, returnAfter, projection)
 	})
 	if err != nil {
 		return &SingleResult{err: err}
 	}
 
-	// get result
-	result := res.(*Result)
-
-	// get doc
-	var doc bsonkit.Doc
-	if result.Upserted != nil {
-		if returnAfter {
-			doc = result.Upserted
-		}
-	} else if len(result.Matched) > 0 {
-		doc = result.Matched[0]
-		if returnAfter && len(result.Modified) > 0 {
-			doc = result.Modified[0]
-		}
-	}
-
-	// apply projection
-	if doc != nil && projection != nil {
-		doc, err = mongokit.Project(doc, projection)
-		if err != nil {
-			return &SingleResult{err: err}
-		}
-	}
-
-	return &SingleResult{doc: doc}
+	return &SingleResult{doc: res.(bsonkit.Doc)}
 }
 
 // FindOneAndUpdate implements the ICollection.FindOneAndUpdate method.
@@ -882,37 +900,19 @@ func (c *Collection) FindOneAndUpdate(ctx context.Context, filter, update interf
 
 	// update documents
 	res, err := useTransaction(ctx, c.engine, true, func(txn *Transaction) (interface{}, error) {
-		return txn.Update(c.handle, query, sort, upd, 0, 1, upsert, arrayFilters)
+		// update document
+		result, err := txn.Update(c.handle, query, sort, upd, 0, 1, upsert, arrayFilters)
+		if err != nil {
+			return nil, err
+		}
+
+		return projectModified(result, returnAfter, projection)
 	})
 	if err != nil {
 		return &SingleResult{err: err}
 	}
 
-	// get result
-	result := res.(*Result)
-
-	// get doc
-	var doc bsonkit.Doc
-	if result.Upserted != nil {
-		if returnAfter {
-			doc = result.Upserted
-		}
-	} else if len(result.Matched) > 0 {
-		doc = result.Matched[0]
-		if returnAfter && len(result.Modified) > 0 {
-			doc = result.Modified[0]
-		}
-	}
-
-	// apply projection
-	if doc != nil && projection != nil {
-		doc, err = mongokit.Project(doc, projection)
-		if err != nil {
-			return &SingleResult{err: err}
-		}
-	}
-
-	return &SingleResult{doc: doc}
+	return &SingleResult{doc: res.(bsonkit.Doc)}
 }
 
 // Indexes implements the ICollection.Indexes method.
